@@ -30,7 +30,10 @@ def committed_scripts(T, rng, sf):
     elif r < .4: body = T.Script.from_src('false').bytes
     elif r < .55: body = T.Script.from_src(rng.choice(['push d1 push d1 equal', 'push d7 push d9 less', 'push x0102 size push d2 equal verify pop0 true'])).bytes
     elif r < .65: body = T.Script.from_src(rng.choice(['pop0 pop0 pop0 true', 'false verify true', 'push d1 push d0 div_ints'])).bytes
-    elif r < .75: body = T.Script.from_src(rng.choice(['true return false', 'true if { return } false'])).bytes
+    elif r < .7: body = T.Script.from_src(rng.choice(['true return false', 'true if { return } false'])).bytes
+    elif r < .76:     # a block construct followed by instructions that decide the verdict
+        body = T.Script.from_src(rng.choice(['true true if { pop0 } false verify', 'true if { true } pop0 false', 'try { true } except { } pop0 push d1 push d2 equal',
+                                             'true true if { pop0 } pop0 true', 'push d1 loop { pop0 false } pop0 true'])).bytes
     elif r < .82: body = T.Script.from_src('def 1 { true } call d1').bytes
     elif r < .86: body = T.Script.from_src('call d0').bytes          # relies on a function the witness defines
     else:
@@ -199,6 +202,11 @@ def _run(ctx: Ctx) -> Result:
         if isinstance(ws, str) or ws.bytes != push(code) + push(pk):
             B.viol('make_taproot_witness_scriptspend is not `push <script> push <key>`', inp, (push(code) + push(pk)).hex(), hexof(ws)); continue
         scriptpath('the builder\'s script-spend witness', code, pk)
+        # the witness's own RETURN (at top level) ends the witness script only: the committed script still runs to its own end
+        wret = prefix + push(code) + push(pk) + bytes([48])
+        ok_r, o_r, tapes_r = auth([wret, lock.bytes], sf)
+        if ok_r != own or code not in tapes_r[2:]:
+            B.viol('script path: the builder\'s script-spend witness followed by the witness\'s own RETURN: verdict is not the script\'s own verdict', case([wret, lock.bytes]), own, o_r[:80])
         j = rng.randrange(len(code)); bad = code[:j] + bytes([code[j] ^ (1 << rng.randrange(8))]) + code[j + 1:]
         scriptpath('one bit of the script flipped', bad, pk)
         scriptpath('an uncommitted script', MARK + T.Script.from_src('true').bytes + b'\x01' * rng.randrange(1, 3), pk)
@@ -245,6 +253,7 @@ def _run(ctx: Ctx) -> Result:
         cache = {**sf}
         if rng.random() < .2: cache[b'k'] = [rng.choice(keys.pks)]
         honest = [wk.bytes, prefix + ws.bytes, w_plain, w_other, prefix + push(bad) + push(pk), push(code) + push(root), push(V.rbytes(rng, 32)), push(V.rbytes(rng, 64)), b'']
+        honest += [prefix + ws.bytes + bytes([48]), wk.bytes + bytes([48]), bytes([1, 43, 0, 1, 48]) + prefix + ws.bytes]      # ... ending in / starting with a RETURN of the witness's own
         for wi in range(ctx.n(6, 10)):
             cfg = vmrun.Cfg(now=B.now)
             restricted = rng.random() < .3
